@@ -62,10 +62,16 @@ func init() {
 			return strconv.Itoa(int(concI(fr, args[0], "strconv.Itoa")))
 		},
 		"strconv.Atoi": func(fr *frame, args []value) value {
+			if ss, ok := args[0].(*symstr); ok {
+				return fr.i.ps.parseIntSym(fr, ss, types.Int)
+			}
 			n, err := strconv.Atoi(concStr(args[0], "strconv.Atoi"))
 			return tuple{n, fr.i.mkError(err)}
 		},
 		"strconv.ParseInt": func(fr *frame, args []value) value {
+			if ss, ok := args[0].(*symstr); ok {
+				return fr.i.ps.parseIntSym(fr, ss, types.Int64)
+			}
 			n, err := strconv.ParseInt(concStr(args[0], "strconv.ParseInt"), int(asInt64(args[1])), int(asInt64(args[2])))
 			return tuple{n, fr.i.mkError(err)}
 		},
@@ -197,8 +203,8 @@ func init() {
 		"strings.Replace": func(fr *frame, args []value) value {
 			return strings.Replace(concStr(args[0], "strings.Replace"), concStr(args[1], "strings.Replace"), concStr(args[2], "strings.Replace"), int(asInt64(args[3])))
 		},
-		"strings.ToUpper": func(fr *frame, args []value) value { return strings.ToUpper(concStr(args[0], "strings.ToUpper")) },
-		"strings.ToLower": func(fr *frame, args []value) value { return strings.ToLower(concStr(args[0], "strings.ToLower")) },
+		"strings.ToUpper": func(fr *frame, args []value) value { return fr.i.ps.caseMap(args[0], true) },
+		"strings.ToLower": func(fr *frame, args []value) value { return fr.i.ps.caseMap(args[0], false) },
 		"unique.Make[string]": func(fr *frame, args []value) value { return args[0] },
 		"strings.TrimRight": func(fr *frame, args []value) value {
 			return fr.i.ps.trimElems(args[0], concStr(args[1], "TrimRight cutset"), false, true)
@@ -997,4 +1003,81 @@ func (ps *pathState) trimElems(v value, set string, left, right bool) value {
 		}
 	}
 	return normStr(e[lo:hi])
+}
+
+
+// parseIntSym: ParseInt/Atoi of a string with symbolic bytes is a memoised
+// nondeterministic pair (is-integer, value): an error for sure when a
+// concrete byte is not a digit/sign/underscore/base prefix character.
+func (ps *pathState) parseIntSym(fr *frame, s *symstr, k types.BasicKind) value {
+	key := "pi:" + s.key()
+	if v, ok := ps.memo[key]; ok {
+		return v
+	}
+	zero := func() value {
+		if k == types.Int {
+			return int(0)
+		}
+		return int64(0)
+	}
+	errv := func() value { return fr.i.mkErrorStr("strconv.ParseInt: parsing: invalid syntax") }
+	for _, e := range s.e {
+		switch b := e.(type) {
+		case uint8:
+			if !strings.ContainsRune("0123456789+-_xXoObBabcdefABCDEF", rune(b)) {
+				r := tuple{zero(), errv()}
+				ps.memo[key] = r
+				return r
+			}
+		case ffElem:
+			panic(pathEnd{StUnsupported, "ParseInt of float text"})
+		}
+	}
+	var r value
+	if ps.choose('c', 2) == 1 {
+		r = tuple{mkval(k, ps.newInput("parsedint", "env", bvSort(64))), iface{}}
+	} else {
+		r = tuple{zero(), errv()}
+	}
+	ps.memo[key] = r
+	return r
+}
+
+
+// caseMap: strings.ToUpper / ToLower element-wise (symbolic bytes are ASCII by obligation).
+func (ps *pathState) caseMap(v value, upper bool) value {
+	if s, ok := v.(string); ok {
+		if upper {
+			return strings.ToUpper(s)
+		}
+		return strings.ToLower(s)
+	}
+	e := strElems(v)
+	out := make([]value, len(e))
+	ts := ps.ts
+	for i, x := range e {
+		switch b := x.(type) {
+		case uint8:
+			if b >= 0x80 {
+				panic(pathEnd{StUnsupported, "case mapping of a non-ASCII byte next to symbolic bytes"})
+			}
+			if upper && b >= 'a' && b <= 'z' {
+				b -= 32
+			} else if !upper && b >= 'A' && b <= 'Z' {
+				b += 32
+			}
+			out[i] = b
+		case sym:
+			ps.requireASCII(b, "strings.ToUpper/ToLower")
+			lo, hi, d := uint64('a'), uint64('z'), uint64(0xe0) // -32 mod 256
+			if !upper {
+				lo, hi, d = 'A', 'Z', 32
+			}
+			in := ts.And(ts.BvCmp(OpBvUle, ts.BV(lo, 8), b.t), ts.BvCmp(OpBvUle, b.t, ts.BV(hi, 8)))
+			out[i] = mkval(types.Uint8, ts.Ite(in, ts.BvBin(OpBvAdd, b.t, ts.BV(d, 8)), b.t))
+		default:
+			panic(pathEnd{StUnsupported, "case mapping of float text"})
+		}
+	}
+	return normStr(out)
 }
